@@ -3,6 +3,7 @@ package icc
 import (
 	"fmt"
 	"github.com/mandykoh/prism/meta/binary"
+	"io"
 	"time"
 )
 
@@ -180,8 +181,8 @@ func (pr *ProfileReader) readHeader(header *Header) error {
 	}
 	header.ProfileCreator = Signature(value)
 
-	bytesRead, err := pr.reader.Read(header.ProfileID[:])
-	if err != nil {
+	bytesRead, err := io.ReadFull(pr.reader, header.ProfileID[:])
+	if err != nil && err != io.ErrUnexpectedEOF {
 		return err
 	}
 	if bytesRead < len(header.ProfileID) {
@@ -241,8 +242,8 @@ func (pr *ProfileReader) readTagTable(tagTable *TagTable) error {
 
 	tagDataOffset := tagTableOffset + 4 + (tagCount * 12)
 	tagData := make([]byte, endOfTagData-tagDataOffset)
-	bytesRead, err := pr.reader.Read(tagData)
-	if err != nil {
+	bytesRead, err := io.ReadFull(pr.reader, tagData)
+	if err != nil && err != io.ErrUnexpectedEOF {
 		return err
 	}
 	if bytesRead < len(tagData) {
